@@ -42,6 +42,7 @@ func runC11(c *core.Ctx) {
 	checkFixpointLoops(c, lfuncs)
 	checkLastWriterWins(c, lfuncs)
 	c.Floor("lint.optnil", 20)
+	checkMapDeref(c, lfuncs)
 
 	// ---- hoist
 	lv := prog.SSAFunc("linter", "Linter.lintVCL")
@@ -655,4 +656,128 @@ func checkLastWriterWins(c *core.Ctx, funcs []*ssa.Function) {
 		}
 	}
 	c.Floor("lint.lastwins", 1)
+}
+
+// checkMapDeref (lint.mapderef): the linter registers every root declaration in a table of the context before it lints
+// the bodies, and later reads the table entry of the declaration in hand without a comma-ok test
+// (`ctx.Acls[name].IsUsed = true`). That is only safe when the registration cannot fail *without* leaving an entry:
+// every error return of the function that fills the table must lie behind the found edge of a lookup in the very same
+// table (a duplicate: the first declaration is there). A registrar that also refuses a name for another reason (a
+// subroutine named like a built-in function) leaves no entry, the declaration is still linted, and the read
+// dereferences nil.
+func checkMapDeref(c *core.Ctx, lfuncs []*ssa.Function) {
+	prog := c.Prog
+	ctxType := core.ModPath + "/linter/context.Context"
+	tableOf := func(m ssa.Value) string {
+		ld, ok := m.(*ssa.UnOp)
+		if !ok || ld.Op != token.MUL {
+			return ""
+		}
+		if f := core.FieldOf(ld.X); f != nil && core.FieldOwner(ld.X) == ctxType {
+			return f.Name()
+		}
+		return ""
+	}
+	// registrars: methods of Context that update the table; may they fail leaving no entry?
+	unsafe := map[string]string{} // table -> registrar that can fail without an entry
+	registrars := map[string]int{}
+	for _, fn := range prog.ModuleFuncs("linter/context") {
+		tables := map[string]bool{}
+		for _, b := range fn.Blocks {
+			for _, in := range b.Instrs {
+				if mu, ok := in.(*ssa.MapUpdate); ok {
+					// the element handed in by the caller (AddDirector also files a backend it makes itself: not the
+					// registration of a backend declaration)
+					if _, isParam := mu.Value.(*ssa.Parameter); !isParam {
+						continue
+					}
+					if t := tableOf(mu.Map); t != "" {
+						tables[t] = true
+					}
+				}
+			}
+		}
+		if len(tables) == 0 || fn.Signature.Results().Len() == 0 {
+			continue
+		}
+		res := fn.Signature.Results()
+		if !types.Identical(res.At(res.Len()-1).Type(), types.Universe.Lookup("error").Type()) {
+			continue
+		}
+		for t := range tables {
+			registrars[t]++
+			for _, rs := range core.ReturnSites(fn) {
+				if len(rs.Results) == 0 || core.IsNilConst(rs.Results[len(rs.Results)-1]) {
+					continue
+				}
+				// an error return: behind the found edge of a lookup in table t?
+				behind := false
+				for _, b := range fn.Blocks {
+					for _, in := range b.Instrs {
+						lk, ok := in.(*ssa.Lookup)
+						if !ok || !lk.CommaOk || tableOf(lk.X) != t || lk.Referrers() == nil {
+							continue
+						}
+						for _, r := range *lk.Referrers() {
+							if ex, isEx := r.(*ssa.Extract); isEx && ex.Index == 1 && core.DominatedByTrue(ex, rs.Ret.Block()) {
+								behind = true
+							}
+						}
+					}
+				}
+				// the entry may also have been stored before the failing return
+				for _, b := range fn.Blocks {
+					for _, in := range b.Instrs {
+						if mu, ok := in.(*ssa.MapUpdate); ok && tableOf(mu.Map) == t && core.InstrDominates(mu, rs.Ret) {
+							behind = true
+						}
+					}
+				}
+				if !behind {
+					unsafe[t] = core.FnName(fn)
+				}
+			}
+		}
+	}
+	n := 0
+	for _, fn := range lfuncs {
+		if fn.Pkg == nil || fn.Pkg.Pkg.Path() != core.ModPath+"/linter" {
+			continue
+		}
+		ord := map[string]int{}
+		for _, b := range fn.Blocks {
+			for _, in := range b.Instrs {
+				lk, ok := in.(*ssa.Lookup)
+				if !ok || lk.CommaOk {
+					continue
+				}
+				t := tableOf(lk.X)
+				if t == "" || registrars[t] == 0 {
+					continue
+				}
+				if _, isPtr := lk.Type().Underlying().(*types.Pointer); !isPtr {
+					continue
+				}
+				var bad ssa.Instruction
+				for _, use := range derefUses(nil, lk) {
+					if !core.DominatedByNil(lk, use.Block(), false) {
+						bad = use
+					}
+				}
+				if bad == nil {
+					continue
+				}
+				ord[t]++
+				key := fmt.Sprintf("%s|%s#%d", core.FnName(fn), t, ord[t])
+				n++
+				if r, isUnsafe := unsafe[t]; isUnsafe {
+					c.Report("lint.mapderef", key, bad.Pos(), fmt.Sprintf("%s dereferences ctx.%s[…] without a comma-ok test, and %s can refuse a declaration without leaving an entry (an error return that is not behind a lookup in the same table): the declaration is linted all the same and the read is a nil dereference", core.FnName(fn), t, r))
+				} else {
+					c.Discharge("lint.mapderef", key, bad.Pos(), "every failing registration of ctx."+t+" is a duplicate: the entry of the first declaration is there")
+				}
+			}
+		}
+	}
+	c.Floor("lint.mapderef", 2)
+	_ = n
 }
